@@ -8,7 +8,8 @@
 (***************************************************************************)
 EXTENDS U64, TLC
 
-LInit(haslen, len) == [pos |-> Zero, has |-> haslen, len |-> len, fin |-> FALSE]
+LInit(haslen, len) == [pos |-> Zero, has |-> haslen, len |-> len, fin |-> FALSE, onfin |-> "AndLeave"]
+LInitF(haslen, len, onfin) == [LInit(haslen, len) EXCEPT !.onfin = onfin]       \* with_finish(onfin)
 
 Finish(L) == [L EXCEPT !.fin = TRUE, !.pos = IF L.has THEN L.len ELSE L.pos]
 
@@ -19,6 +20,8 @@ LApply(L, r) ==
       [] r.op = "reset"        -> [L EXCEPT !.pos = Zero, !.fin = FALSE]
       [] r.op \in {"finish", "finish_with_message", "finish_and_clear"} -> Finish(L)
       [] r.op \in {"abandon", "abandon_with_message"} -> [L EXCEPT !.fin = TRUE]
+      (* the configured finish behaviour, every time it is asked for (it is not used up by the first finish) *)
+      [] r.op = "finish_using_style" -> IF L.onfin \in {"Abandon", "AbandonWithMessage"} THEN [L EXCEPT !.fin = TRUE] ELSE Finish(L)
       [] r.op \in {"set_length", "update_len"} -> [L EXCEPT !.has = TRUE, !.len = r.n]
       [] r.op = "unset_length" -> [L EXCEPT !.has = FALSE]
       [] r.op = "inc_length"   -> IF L.has THEN [L EXCEPT !.len = SatAdd(L.len, r.n)] ELSE L
